@@ -90,7 +90,9 @@ CHECKS = {
    text=('Hand-written Gallina model of make_rabin_transducer over the '
          'translated _controllable_action/step/_make_init/solver; proved for '
          'arbitrary iterates: every allowed step satisfies the specified '
-         'component action under the mode causality rule. Absence of '
+         'component action under the mode causality rule; Moore '
+         'implementations do not depend on next environment values; both '
+         'memory variables stay in range. Absence of '
          'blocking is REFUTED on the faithful model by two kernel-checked '
          'witnesses (C05_refuted_dead_end = F3, C05_refuted_stale_hold = '
          'F12), reproduced on the real code and listed as known findings; '
@@ -112,8 +114,8 @@ CHECKS = {
          'checker of that statement is proved to characterise it and is '
          'evaluated inside Coq on graphs produced by the REAL enumeration '
          '(synthesized Streett implementations and hand-made actions, 4 '
-         'qinit, Moore/Mealy, both back ends). Termination bound and the '
-         'inherited liveness of paths are not proved.'),
+         'qinit, Moore/Mealy, both back ends). The inherited liveness of '
+         'paths is not proved.'),
    note=('Trusted: Coq kernel+vm_compute; hand model tied by checking real '
          'outputs with the verified checker (sample); domain restriction: '
          'environment action independent of y\' (inputs the library rejects '
